@@ -905,9 +905,18 @@ func (rn *runner) replay(v, c *tmconsensus.VersionedRoundView) {
 		r = R + 2
 	case 11: // a header committed in a round the mirror has already left
 		r = R - 1 - uint32(w.r.below(int(R)))
+	case 14: // a round two ahead, but the commit proof's signatures were made for the NEXT round (a mixed certificate)
+		r = R + 2
 	}
 	// variant 10: a header the mirror already holds as a proposed header of this height (this or an earlier round)
 	var known *tmconsensus.ProposedHeader
+	if variant == 14 {
+		// the header is one the mirror holds as a proposal of the voting round (the scripted history has just filed one
+		// validator's next-round precommit for it)
+		if phs := rn.knownPHs[hr{H, R}]; len(phs) > 0 {
+			known = &phs[len(phs)-1]
+		}
+	}
 	if variant == 12 {
 		// a header of the CURRENT voting round that the view already holds precommits for, replayed with a commit proof
 		// below the majority that adds precommits the view does not hold: refused, and nothing of it may stay behind
@@ -998,8 +1007,13 @@ func (rn *runner) replay(v, c *tmconsensus.VersionedRoundView) {
 			return
 		}
 	}
+	sigRound := r
+	if variant == 14 {
+		sigRound = R + 1
+		rn.stats["replay_round_ahead_with_next_round_signatures"]++
+	}
 	proof := tmconsensus.CommitProof{Round: r, PubKeyHash: string(cur.vs.PubKeyHash),
-		Proofs: map[string][]gcrypto.SparseSignature{target: rn.mkSigsNoKid(signer, kindPrecommit, h, r, target, idxs, flaw)}}
+		Proofs: map[string][]gcrypto.SparseSignature{target: rn.mkSigsNoKid(signer, kindPrecommit, h, sigRound, target, idxs, flaw)}}
 	if variant == 0 && w.r.chance(1, 3) {
 		proof.Proofs[""] = rn.mkSigsNoKid(cur, kindPrecommit, h, r, "", rn.randSubset(len(cur.keys), 1), 0)
 	}
@@ -1443,6 +1457,13 @@ func (rn *runner) step() {
 			// predecessor and carries its certificate, and everyone precommits whatever proposal the mirror holds
 			rn.stats["script_fork_attempt"]++
 			rn.script = []string{"propose", "precommit-nil-one", "precommit-most", "late-fork-precommits", "propose-fork", "precommit-all", "gread"}
+		case y == 12 && replayMode:
+			// a replayed header for a round TWO ahead of the voting round: once with a genuine certificate for that round
+			// (accepted), once with a certificate whose signatures were made for the next round (must be refused); after a
+			// precommit of one validator for the next round so that the next-round view is not empty.
+			// Only reachable with -template 12.
+			rn.stats["script_replay_two_rounds_ahead"]++
+			rn.script = []string{"propose", "precommit-one-next", "replay-mixed-round", "gread", "replay-ahead2", "gread"}
 		case y == 11 && rn.crashes:
 			// a next-round prevote message that crosses the round-skip threshold is cut short after its FIRST store write (the
 			// round store has the votes, the stored position is still the old round), the mirror restarts and the message is
@@ -2098,6 +2119,15 @@ func (rn *runner) scripted(op string, v, c *tmconsensus.VersionedRoundView) bool
 	case "replay-voted-minority":
 		rn.forceReplay = 12
 		rn.replay(v, c)
+	case "replay-mixed-round":
+		rn.forceReplay = 14
+		rn.replay(v, c)
+	case "replay-ahead2":
+		rn.forceReplay = 3
+		rn.replay(v, c)
+	case "precommit-one-next":
+		i := rn.w.r.below(max(n, 1))
+		rn.doVotes(kindPrecommit, H, R+1, pkh, []voteEntry{{target, rn.mkSigs(cur, kindPrecommit, H, R+1, target, []int{i}, 0)}})
 	case "precommit-one":
 		i := rn.w.r.below(max(n, 1))
 		rn.lastOneVoter = i
